@@ -139,7 +139,12 @@ func abstractFloat(t string) string {
 }
 
 func runSolver(sp solverSpec, file string, timeoutS int) SolveResult {
-	ctx, cancel := context.WithTimeout(context.Background(), time.Duration(timeoutS+3)*time.Second)
+	return runSolverCtx(context.Background(), sp, file, timeoutS)
+}
+
+// runSolverCtx: the solver process is killed when parent is cancelled (a sibling of the portfolio has answered).
+func runSolverCtx(parent context.Context, sp solverSpec, file string, timeoutS int) SolveResult {
+	ctx, cancel := context.WithTimeout(parent, time.Duration(timeoutS+3)*time.Second)
 	defer cancel()
 	argv := sp.argv(file, timeoutS)
 	t0 := time.Now()
@@ -167,7 +172,10 @@ func runSolver(sp solverSpec, file string, timeoutS int) SolveResult {
 	return r
 }
 
-// solveQuery: z3-new first (fast path), then the other two in parallel.
+// solveQuery: a staged portfolio. Stage 1: z3-new alone (4 s) decides almost everything. Stage 2 (12 s): the three
+// variants that decide what stage 1 does not (older simplex core, z3 4.8, another seed). Stage 3: every variant with the
+// full budget. Within a stage the first decisive answer wins and the sibling processes are killed at once — left
+// running they occupied the cores for the whole timeout and slowed every other query down several times over.
 func solveQuery(file string, timeoutS int, cover bool) SolveResult {
 	quick := timeoutS
 	if quick > 4 {
@@ -177,24 +185,44 @@ func solveQuery(file string, timeoutS int, cover bool) SolveResult {
 	if r.Status == "unsat" || r.Status == "sat" {
 		return r
 	}
-	// race all three with the full timeout
-	ch := make(chan SolveResult, len(solvers))
+	byName := map[string]solverSpec{}
 	for _, sp := range solvers {
-		sp := sp
-		go func() { ch <- runSolver(sp, file, timeoutS) }()
+		byName[sp.name] = sp
 	}
-	var last SolveResult = r
-	var errs []string
-	for range solvers {
-		rr := <-ch
-		if rr.Status == "unsat" || rr.Status == "sat" {
+	race := func(sps []solverSpec, budget int) (SolveResult, bool, []string) {
+		ctx, cancel := context.WithCancel(context.Background())
+		defer cancel()
+		ch := make(chan SolveResult, len(sps))
+		for _, sp := range sps {
+			sp := sp
+			go func() { ch <- runSolverCtx(ctx, sp, file, budget) }()
+		}
+		var last SolveResult
+		var errs []string
+		for range sps {
+			rr := <-ch
+			if rr.Status == "unsat" || rr.Status == "sat" {
+				return rr, true, nil
+			}
+			if rr.Status == "error" {
+				errs = append(errs, rr.Solver+": "+trunc(rr.Output, 300))
+			} else {
+				last = rr
+			}
+		}
+		return last, false, errs
+	}
+	if timeoutS > 16 {
+		if rr, ok, _ := race([]solverSpec{byName["z3-new/arith2"], byName["z3"], byName["z3-new/seed11"]}, 12); ok {
 			return rr
 		}
-		if rr.Status == "error" {
-			errs = append(errs, rr.Solver+": "+trunc(rr.Output, 300))
-		} else {
-			last = rr
-		}
+	}
+	last, ok, errs := race(solvers, timeoutS)
+	if ok {
+		return last
+	}
+	if last.Status == "" {
+		last = r
 	}
 	if last.Status == "error" || (len(errs) == len(solvers)) {
 		last.Status = "error"
